@@ -69,6 +69,19 @@ pub use crate::{
 // line of an HTTP request.
 const CRLF: &str = "\r\n";
 
+// Parse an unsigned number made solely of digits in the given radix.  Unlike
+// the standard library parsers, a leading sign is not accepted.
+fn parse_unsigned(
+    text: &str,
+    radix: u32,
+) -> Result<usize, std::num::ParseIntError> {
+    if text.starts_with('+') {
+        usize::from_str_radix("+", radix)
+    } else {
+        usize::from_str_radix(text, radix)
+    }
+}
+
 fn find_crlf<T>(message: T) -> Option<usize>
 where
     T: AsRef<[u8]>,
